@@ -69,8 +69,11 @@ pub struct MOut {
     pub obs: ObsStats,
 }
 
-fn make_prefs(knobs: &Spec, threads: Option<usize>) -> Preferences {
+fn make_prefs(knobs: &Spec, threads: Option<usize>, with_pred: bool) -> Preferences {
     let mut prefs = Preferences::default();
+    if with_pred {
+        prefs.should_abort = Some(Box::new(simcore::probe::abort_poll));
+    }
     prefs.threads = threads;
     prefs.verbosity = Verbosity::Silent;
     prefs.fb_size = knobs.fb_size;
@@ -82,6 +85,10 @@ fn make_prefs(knobs: &Spec, threads: Option<usize>) -> Preferences {
 
 /// Run the callers concurrently (or, with `preset_latch`, one caller after a latch-setting call).
 pub fn run_multi(spec: &MSpec, only: Option<usize>, preset_latch: bool, threads: Option<usize>, cfg: SimConfig, observe: bool) -> MOut {
+    run_multi_pred(spec, only, preset_latch, threads, cfg, observe, false)
+}
+
+pub fn run_multi_pred(spec: &MSpec, only: Option<usize>, preset_latch: bool, threads: Option<usize>, cfg: SimConfig, observe: bool, with_pred: bool) -> MOut {
     let stats = Rc::new(RefCell::new(ObsStats::default()));
     install_relation_observer(stats.clone(), observe);
     let callers: Vec<(Uint, Algo)> = spec
@@ -96,7 +103,7 @@ pub fn run_multi(spec: &MSpec, only: Option<usize>, preset_latch: bool, threads:
     let slots: Arc<Mutex<Vec<Option<Answer>>>> = Arc::new(Mutex::new(vec![None; ncall]));
     let slots2 = slots.clone();
     let (sim, _) = run_sim(cfg, move || {
-        let prefs = make_prefs(&knobs, threads);
+        let prefs = make_prefs(&knobs, threads, with_pred);
         if preset_latch {
             let _ = yamaquasi::factor(latch_setter(), Algo::Auto, &prefs);
         }
@@ -430,6 +437,126 @@ pub fn run_c04(tier: Tier, seed: u64, idx: u64) -> Report {
     rep
 }
 
+fn judge_c05(spec: &MSpec, out: &MOut) -> Vec<(String, String, String)> {
+    let mut v = vec![];
+    match &out.sim.end {
+        RunEnd::Completed | RunEnd::WallLimit => {}
+        RunEnd::Panic { message, location } => v.push(("A2_no_panic".into(), format!("panic@{location}"), message.chars().take(300).collect())),
+        RunEnd::Deadlock(m) => v.push(("A2_terminates".into(), "deadlock".into(), m.chars().take(300).collect())),
+        RunEnd::Livelock => v.push(("A5_bounded_after_flip".into(), "livelock".into(), "step cap exceeded".into())),
+    }
+    for (i, a) in out.answers.iter().enumerate() {
+        let Some(a) = a else { continue };
+        if let Err(e) = check_c01(&spec.callers[i], a) {
+            v.push(("A1_consistent_answer".into(), "oracle:wrong_factor_list".into(), format!("caller {i} (n = {}): {e}", uint_dec(&spec.callers[i].n))));
+        }
+    }
+    if let Some(a3) = out.sim.a3_violations.first() {
+        v.push(("A3_no_new_unit_after_true".into(), "oracle:unit_after_abort_seen".into(), a3.clone()));
+    }
+    if out.sim.flip_step.is_some() && out.sim.units_after_flip > out.sim.live_at_flip as u64 {
+        v.push((
+            "A4_units_after_flip_bounded".into(),
+            "oracle:too_many_units_after_flip".into(),
+            format!("{} gated work units began after the abort flipped at step {:?}, but only {} simulated threads were alive then", out.sim.units_after_flip, out.sim.flip_step, out.sim.live_at_flip),
+        ));
+    }
+    v
+}
+
+/// C05 with concurrent callers: the callers share the abort callback as well (one `&Preferences`). When it starts
+/// answering true every call must come back with a consistent answer, none may panic or hang, and no thread of
+/// any call may begin a gated unit after having received `true`.
+pub fn run_c05(tier: Tier, seed: u64, idx: u64) -> Report {
+    use simcore::AbortPlan;
+    let prop = "C05";
+    let mut rep = Report::new(idx);
+    let mut rng = Rng::new(derive(seed, prop, idx, "scenario"));
+    let spec = gen_mspec(&mut rng, tier);
+    rep.sample = spec.to_json();
+    rep.stat("scenarios_with_concurrent_callers_on_shared_preferences", 1);
+    crate::common::phase(idx, "reference");
+    let mut refs = References { fresh: vec![], preset: vec![] };
+    let (mut ref_steps, mut ref_polls) = (0u64, 0u64);
+    for i in 0..spec.callers.len() {
+        for preset in [false, true] {
+            let mut rcfg = SimConfig::reference(derive(seed, prop, idx, "reference") ^ mix(&[i as u64, preset as u64]));
+            rcfg.step_cap = 600_000;
+            rcfg.wall_limit_ms = Some(if tier == Tier::Quick { 8_000 } else { 30_000 });
+            let r = run_multi_pred(&spec, Some(i), preset, None, rcfg, false, true);
+            rep.absorb(&r.sim, false);
+            if r.sim.end != RunEnd::Completed {
+                rep.reference_failed = Some(format!("{}: {}", r.sim.end.class(), match &r.sim.end {
+                    RunEnd::Panic { message, .. } => message.chars().take(120).collect::<String>(),
+                    _ => String::new(),
+                }));
+                return rep;
+            }
+            if !preset {
+                ref_steps += r.sim.steps;
+                ref_polls += r.sim.polls;
+            }
+            if preset { refs.preset.push(r) } else { refs.fresh.push(r) }
+        }
+    }
+    crate::common::phase(idx, "subruns");
+    let mut nsub: u64 = if tier == Tier::Quick { 12 } else { 32 };
+    if ref_steps > 20_000 {
+        nsub = nsub.min(4);
+    }
+    if spec.callers.iter().any(|c| c.algo == Algo::Mpqs) {
+        nsub = nsub.min(6);
+    }
+    if spec.callers.iter().any(|c| c.algo == Algo::Ecm) {
+        // an aborted pure-ECM call still walks all nine B1 levels (seconds of real time)
+        nsub = nsub.min(2);
+    }
+    for j in 0..nsub {
+        let sub = j + 1;
+        let mut r = Rng::new(derive(seed, prop, idx, "sub") ^ mix(&[j]));
+        let threads = *r.pick(&[None, Some(1usize), Some(2), Some(2), Some(3), Some(4), Some(0)]);
+        let per_call = match threads {
+            None | Some(1) => 1,
+            Some(0) => 8,
+            Some(t) => t,
+        };
+        let workers = per_call * spec.callers.len();
+        let mut cfg = gen_sim_cfg(&mut r, ref_steps.max(200), workers, j % 4 != 0);
+        if spec.callers.iter().any(|c| c.algo == Algo::Mpqs) {
+            cfg.claim_policy = simcore::ClaimPolicy::InOrder;
+        }
+        let kind = r.weighted(&[40, 35, 25]);
+        cfg.abort = if kind == 2 && per_call >= 2 {
+            AbortPlan::AtRegion(*r.pick(&[1u64, 1, 2, 2, 3, 4]), r.range(1, per_call as u64 + 1))
+        } else if kind == 0 {
+            AbortPlan::AtPoll(r.range(1, ref_polls.max(1) + workers as u64 + 1))
+        } else {
+            let len = (ref_steps * 3 / 2).max(10);
+            AbortPlan::AtTime((r.below(len) + r.below(len)) / 2)
+        };
+        let out = run_multi_pred(&spec, None, false, threads, cfg.clone(), false, true);
+        rep.absorb(&out.sim, out.sim.flip_step.is_some());
+        rep.stat(&format!("threads_{}", threads.map(|t| t.to_string()).unwrap_or("none".into())), 1);
+        if out.sim.flip_step.is_some() {
+            rep.stat("aborted_runs", 1);
+            rep.stat("aborted_runs_with_concurrent_callers", 1);
+        }
+        for (oracle, class, message) in judge_c05(&spec, &out) {
+            if oracle.starts_with("A2") {
+                if input_only(&spec, Some(&refs), &out, "S2", &message).is_some() {
+                    rep.stat("failures_of_a_sub_call_that_are_input_only", 1);
+                    continue;
+                }
+            }
+            let mut rj = replay_json(&spec, threads, &cfg, &out, &vec![false; spec.callers.len()], seed, idx, sub, false);
+            rj["property"] = json!("C05");
+            rj["with_abort_predicate"] = json!(true);
+            rep.violations.push(Violation { property: prop.into(), oracle, class, message, replay: rj });
+        }
+    }
+    rep
+}
+
 impl Family for MultiCallerFamily {
     fn name(&self) -> &'static str {
         "multicaller"
@@ -453,6 +580,18 @@ impl Family for MultiCallerFamily {
             .map(|a| a.iter().map(|b| b.as_bool().unwrap_or(false)).collect())
             .unwrap_or_else(|| vec![false; spec.callers.len()]);
         let preset = replay["latch_set_by_an_earlier_call"].as_bool().unwrap_or(false);
+        if replay["property"].as_str() == Some("C05") {
+            let out = run_multi_pred(&spec, None, false, threads, cfg, false, true);
+            return judge_c05(&spec, &out)
+                .into_iter()
+                .map(|(oracle, class, message)| {
+                    let mut r = replay.clone();
+                    r["trace"] = trace_to_json(&out.sim);
+                    r["observed"]["end"] = json!(out.sim.end.class());
+                    Violation { property: "C05".into(), oracle, class, message, replay: r }
+                })
+                .collect();
+        }
         let out = run_multi(&spec, None, preset, threads, cfg, true);
         judge(&spec, &refs_complete, &out, false)
             .into_iter()
@@ -481,8 +620,8 @@ impl Family for MultiCallerFamily {
     fn components(&self) -> Value {
         json!({})
     }
-    fn describe(&self, _prop: &str, tier: Tier, seed: u64, idx: u64) -> Value {
-        let mut rng = Rng::new(derive(seed, "C04", idx, "scenario"));
+    fn describe(&self, prop: &str, tier: Tier, seed: u64, idx: u64) -> Value {
+        let mut rng = Rng::new(derive(seed, prop, idx, "scenario"));
         gen_mspec(&mut rng, tier).to_json()
     }
 }
